@@ -820,6 +820,15 @@ func (vc *VC) intBinop(fx *fexec, st *State, op token.Token, a, b Val, rt types.
 	case token.SHL, token.SHR:
 		c, ok := constOf(b.T)
 		if !ok {
+			if op == token.SHL && b.T.Sort == SInt {
+				// x << n over mathematical integers: x * pow2(n), with pow2 an
+				// uninterpreted function axiomatised by pow2(0)=1, pow2(n)=2*pow2(n-1)
+				if bi, okb := vc.intInfo(b.Ty); okb && bi.signed {
+					fx.panicPoint(st, lt(b.T, intLit(0)), "shift", "negative shift count", pos)
+				}
+				p := vc.pow2Term(b.T)
+				return mk(vc.define(name, ite(ge(b.T, intLit(int64(ii.w))), intLit(0), wrapInt(mul(a.T, p), ii.w, ii.signed))))
+			}
 			panic(engErr("variable shift needs 'arith bv' at " + pos))
 		}
 		if c.Sign() < 0 {
